@@ -181,7 +181,8 @@ func smix(b []byte, r, N int, v, xy []uint32) {
 //
 // N is a CPU/memory cost parameter, which must be a power of two greater than 1.
 // r and p must satisfy r * p < 2³⁰. If the parameters do not satisfy the
-// limits, the function returns a nil byte slice and an error.
+// limits, the function returns a nil byte slice and an error. keyLen must be
+// positive; otherwise the function also returns a nil byte slice and an error.
 //
 // For example, you can get a derived key for e.g. AES-256 (which needs a
 // 32-byte key) by doing:
@@ -201,6 +202,9 @@ func Key(password, salt []byte, N, r, p, keyLen int) ([]byte, error) {
 	}
 	if uint64(r)*uint64(p) >= 1<<30 || r > maxInt/128/p || r > maxInt/256 || N > maxInt/128/r {
 		return nil, errors.New("scrypt: parameters are too large")
+	}
+	if keyLen <= 0 {
+		return nil, errors.New("scrypt: keyLen must be > 0")
 	}
 
 	xy := make([]uint32, 64*r)
